@@ -3,6 +3,8 @@
    of Gen/H2Src.v; read loop = stream/http2 Dispatch over codec Decode. *)
 From Coq Require Import List NArith Bool.
 From MV Require Import Lib.HBits Lib.HSeg Gen.H2Src Model.Hpack Model.H2Frame Proofs.H2FrameStable.
+(* the comparison functions of the correspondence shards are built together with this file *)
+From MV Require Model.HpackCases Model.H2FrameCases.
 Import ListNotations.
 Open Scope N_scope.
 
